@@ -120,9 +120,19 @@ class SQLiteAlterTableSQLResult(AlterTableSQLResult):
                 # This is used to get rid of auto-indexes from SQLite.
                 needs_rebuild = True
             elif op == 'ADD DB INDEX':
-                added_field_db_indexes.append(item['field'])
+                field = item['field']
+                added_field_db_indexes.append(field)
+
+                # If the table is rebuilt, the field indexes are recreated
+                # from the fields used for the new table. Make sure that's
+                # the field with the new db_index state, which may have
+                # been built from a different model instance than ours
+                # when operations are merged.
+                replaced_fields.setdefault(field.column, field)
             elif op == 'DROP DB INDEX':
-                dropped_field_db_indexes.append(item['field'])
+                field = item['field']
+                dropped_field_db_indexes.append(field)
+                replaced_fields.setdefault(field.column, field)
             else:
                 raise ValueError('%s is not a valid Alter Table op for SQLite'
                                  % op)
@@ -146,10 +156,15 @@ class SQLiteAlterTableSQLResult(AlterTableSQLResult):
             if _field.db_type(connection=connection) is not None
         ]
 
+        # Only the existing columns can have been deleted. A column that's
+        # deleted and then added back under the same name must be kept.
         new_fields = [
             replaced_fields.get(_field.column, _field)
-            for _field in old_fields + added_fields
+            for _field in old_fields
             if _field.column not in deleted_columns
+        ] + [
+            replaced_fields.get(_field.column, _field)
+            for _field in added_fields
         ]
 
         field_values = OrderedDict()
